@@ -65,6 +65,19 @@ def mutations(s):
     return sorted(out)
 
 
+def boundary_chars(s):
+    """characters at the edges of the accepted range (just below ' ', DEL, the first non-ASCII ones, NUL, TAB) at the
+    start, in the middle and at the end of a text, with and without a checksum-shaped suffix: a character the
+    character check lets through reaches the tables indexed by it"""
+    body = s.split("#")[0]
+    out = set()
+    for ch in ("\x00", "\t", "\x1f", "\x7f", "\x80", "\xff", "~", " "):
+        for i in (0, len(body) // 2, len(body)):
+            t = body[:i] + ch + body[i:]
+            out.update([t, t + "#", t + "#abcdefgh", t + "#qqqqqqqq", t + "#abcdefg", "#" + t])
+    return sorted(out)
+
+
 def nested(n, name="a", leaf="b"):
     return (name + "(") * n + leaf + ")" * n
 
@@ -141,16 +154,19 @@ def check_parsers(chk, F):
     base = set(SPECIAL)
     for s in VALID:
         base.update(mutations(s))
+        base.update(boundary_chars(s))
     base.update([nested(5), nested(100), "wsh(" + nested(50, "and_v", "pk(A)") + ")"])
     fam["descriptor"] = sorted(base)
     msf = set(SPECIAL)
     for s in MS:
         msf.update(mutations(s))
+        msf.update(boundary_chars(s))
     fam["miniscript-segwit"] = sorted(msf)
     fam["miniscript-tap"] = sorted(set(SPECIAL) | set(mutations("and_v(v:multi_a(2,A,B,C),pk(D))")))
     pf = set(SPECIAL)
     for s in POLICIES:
         pf.update(mutations(s))
+        pf.update(boundary_chars(s))
     fam["concrete"] = sorted(pf)
     fam["semantic"] = sorted(pf)
     fam["tree"] = sorted(base | pf)
